@@ -33,7 +33,7 @@ func systems() []sysgen {
 		{"Maven", semver.Maven, gen.MavenLoose},
 		{"NPM", semver.NPM, gen.Wild(gen.Loose)},
 		{"NuGet", semver.NuGet, gen.Wild(gen.NuGet)},
-		{"PyPI", semver.PyPI, gen.PyPI},
+		{"PyPI", semver.PyPI, gen.Wild(gen.PyPI)},
 		{"Composer", semver.Composer, gen.Wild(gen.Loose)},
 		{"RubyGems", semver.RubyGems, gen.GemRelease},
 	}
